@@ -8,8 +8,17 @@
 (* Abstract shapes (they are also the JSON shapes exchanged with the       *)
 (* harness; glyph ids and all indices stored INSIDE data are 0-based,      *)
 (* positions in a run are 1-based inside TLA+):                            *)
-(*   gdef = [cls : Seq(0..4), att : Seq(Nat), sets : Seq(Seq(gid))]        *)
+(*   gdef = [tab : {"full", "noclassdef", "absent"},                       *)
+(*           cls : Seq(0..4), att : Seq(Nat), sets : Seq(Seq(gid))]        *)
 (*          cls[g+1] = GDEF glyph class of g, att[g+1] = mark attach class *)
+(*          tab = "full"       : GDEF table with a GlyphClassDef           *)
+(*                "noclassdef" : GDEF table whose glyphClassDefOffset is   *)
+(*                               NULL (att and sets are still encoded)     *)
+(*                "absent"     : the font has no GDEF table (GDEF is       *)
+(*                               optional)                                 *)
+(*          Without a GlyphClassDef every glyph has class 0: no glyph is a *)
+(*          mark, so no lookup flag can skip anything.  A glyph that a     *)
+(*          GlyphClassDef does not list has class 0 as well.               *)
 (*   cov  = [f : {1,2}, g : Seq(gid)]     coverage index = position - 1    *)
 (*   cd   = [f : {1,2}, m : Seq(Nat)]     m[g+1] = class of glyph g        *)
 (*   F    = [flag : 0..65535, mfs : Int]  lookup flag, mark filtering set  *)
@@ -28,9 +37,12 @@ FlagUseSet(flag)     == Bit(flag, 4)
 FlagAttachType(flag) == flag \div 256
 
 \* ---- GDEF -----------------------------------------------------------------
-GClass(gdef, g)  == IF g + 1 <= Len(gdef.cls) THEN gdef.cls[g + 1] ELSE 0
-GAttach(gdef, g) == IF g + 1 <= Len(gdef.att) THEN gdef.att[g + 1] ELSE 0
+HasClassDef(gdef) == gdef.tab = "full"
+HasGdef(gdef)     == gdef.tab # "absent"
+GClass(gdef, g)  == IF HasClassDef(gdef) /\ g + 1 <= Len(gdef.cls) THEN gdef.cls[g + 1] ELSE 0
+GAttach(gdef, g) == IF HasGdef(gdef) /\ g + 1 <= Len(gdef.att) THEN gdef.att[g + 1] ELSE 0
 InMarkSet(gdef, s, g) ==
+  /\ HasGdef(gdef)
   /\ s >= 0 /\ s < Len(gdef.sets)
   /\ \E k \in 1 .. Len(gdef.sets[s + 1]) : gdef.sets[s + 1][k] = g
 IsMarkGlyph(gdef, g) == GClass(gdef, g) = 3
